@@ -972,6 +972,10 @@ func (c *specCtx) call(n *SCall) (Val, types.Type) {
 		v, _ := arg(0)
 		cur := c.ghostArr("held", SArrB)
 		return scalar(tb.Select(cur, c.e.mutexRef(v))), types.Typ[types.Bool]
+	case "closed":
+		// closed(ch): the channel value has been closed (ghost flag)
+		v, _ := arg(0)
+		return scalar(tb.Select(c.ghostArr("closed", SArrB), v.T[0])), boolType
 	case "sent":
 		// sent(ch): number of sends on the channel value so far (ghost counter)
 		v, _ := arg(0)
@@ -1104,6 +1108,7 @@ type Loc struct {
 	Sort  Sort  // sort of the class array
 	Ref   *Term // object reference / backing array
 	Idx   *Term // for 2-D classes: element index; nil = whole row
+	All   bool  // the location in every object of the class ("every(p.f)")
 }
 
 // evalLocs evaluates a modifies pattern to locations.
@@ -1199,6 +1204,15 @@ func (c *specCtx) evalLocs(x SExpr) []Loc {
 		if id, ok := n.Fn.(*SIdent); ok && id.Name == "val" && len(n.Args) == 1 {
 			v, _ := c.eval(n.Args[0])
 			return []Loc{{Class: "BigVal", Sort: SArrI, Ref: v.T[0]}}
+		}
+		if id, ok := n.Fn.(*SIdent); ok && id.Name == "every" && len(n.Args) == 1 {
+			// every(p.f): field f of every object of p's type (p only names the type)
+			var out []Loc
+			for _, l := range c.evalLocs(n.Args[0]) {
+				l.All = true
+				out = append(out, l)
+			}
+			return out
 		}
 		if id, ok := n.Fn.(*SIdent); ok && id.Name == "ghost" && len(n.Args) == 1 {
 			s := n.Args[0].(*SStr)
